@@ -26,6 +26,7 @@ type Val struct {
 	Loc   *Loc      // structurally known address (pointer values)
 	Fn    *ssa.Function
 	Dyn   types.Type // statically known dynamic type of an interface value
+	Cancel bool      // a context.CancelFunc created by the verified code
 }
 
 type Closure struct {
@@ -107,6 +108,7 @@ type loopInfo struct {
 	pre     *State        // state just before the loop (for old-style references)
 	phis    []*ssa.Phi
 	decr    string        // value of the variant at the loop head
+	frameComps []string
 }
 
 type retInfo struct {
@@ -136,6 +138,7 @@ type FnCtx struct {
 	unrollLeft map[*ssa.BasicBlock]int
 	nonNil     map[string]bool
 	ranges     map[string]*rangeState
+	lastCall   map[string]Val
 }
 
 func (c *FnCtx) unsupported(format string, a ...any) {
@@ -237,6 +240,9 @@ func (c *FnCtx) obligation(st *State, kind, clause, goal string, pos token.Pos) 
 		o.Props = c.spec.Props
 		o.Bounded = c.spec.Bounded
 		o.Replay = c.spec.Replay
+		if o.Replay == nil && len(c.spec.Replays) > 0 {
+			o.Replay = &ReplaySpec{} // placeholder, resolved per clause after generation
+		}
 	}
 	c.obs = append(c.obs, o)
 	return o
@@ -754,8 +760,44 @@ func (c *FnCtx) loopHead(fr *Frame, li *loopInfo, st *State) {
 		v := c.fresh(fr.fn.Name()+"."+p.Comment, p.Type(), st)
 		fr.vals[p] = v
 	}
+	for _, p := range li.phis {
+		if p.Comment == "rangeindex" {
+			// go/ssa lowers `for i := range s` to an index starting at -1 and incremented by one: it never goes below -1
+			c.assume(st, "(and (>= "+fr.vals[p].E+" (- 1)) (<= "+fr.vals[p].E+" 4611686018427387904))")
+		}
+	}
 	mods := c.loopMods(fr, li)
+	// automatic frame invariant: when the verified function's contract has a modifies clause, every heap component
+	// outside it stays unchanged on objects that existed at function entry, in every loop iteration.  It is an
+	// ordinary invariant (checked on entry and on every back edge), generated so that contracts need not repeat it.
+	li.frameComps = nil
+	if c.spec != nil && c.spec.HasMod {
+		allowed := c.eng.patternMods(c, c.spec.Modifies)
+		var ks []string
+		if mods.all {
+			ks = append(ks, c.eng.compOrder...)
+		} else {
+			for k := range mods.comps {
+				ks = append(ks, k)
+			}
+			sort.Strings(ks)
+		}
+		for _, k := range ks {
+			if _, known := c.eng.comps[k]; !known || allowed.all || allowed.comps[k] || strings.HasPrefix(k, "ghost$") {
+				continue
+			}
+			if !strings.HasPrefix(c.eng.comps[k], "(Array Int") {
+				continue
+			}
+			li.frameComps = append(li.frameComps, k)
+			o := c.obligation(st, "inv", fmt.Sprintf("loop%d.entry.frame.%s", li.ordinal, k), c.frameTerm(k, c.heapGet(st, k)), li.header.Instrs[0].Pos())
+			o.Desc = "automatic frame invariant holds on loop entry for " + k
+		}
+	}
 	c.havocSet(st, mods, fmt.Sprintf("loop%d", li.ordinal))
+	for _, k := range li.frameComps {
+		c.assume(st, c.frameTerm(k, c.heapGet(st, k)))
+	}
 	// 3. assume invariants
 	if li.spec != nil {
 		for _, inv := range li.spec.Invariants {
@@ -778,8 +820,20 @@ func clauseName(cl Clause, k int) string {
 	return fmt.Sprintf("%d", k)
 }
 
+func (c *FnCtx) frameTerm(k, now string) string {
+	h0 := q(k + "@0")
+	return fmt.Sprintf("(forall ((r Int)) (! (=> (and (< 0 r) (< r |alloc0|)) (= (select %s r) (select %s r))) :pattern ((select %s r))))", now, h0, now)
+}
+
 func (c *FnCtx) loopBack(fr *Frame, li *loopInfo, st *State, predIdx int) {
-	if li == nil || li.spec == nil {
+	if li == nil {
+		return
+	}
+	for _, k := range li.frameComps {
+		o := c.obligation(st, "inv", fmt.Sprintf("loop%d.preserved.frame.%s", li.ordinal, k), c.frameTerm(k, c.heapGet(st, k)), li.header.Instrs[0].Pos())
+		o.Desc = "automatic frame invariant preserved for " + k
+	}
+	if li.spec == nil {
 		return
 	}
 	override := map[ssa.Value]Val{}
@@ -903,18 +957,35 @@ func (c *FnCtx) instrMods(fr *Frame, ins ssa.Instruction, m *modSet, depth int) 
 		m.alloc = true
 	case *ssa.MakeInterface:
 	case *ssa.Send:
-		m.comps["ghost$chan"] = true
+		m.comps["ghost$chan$sent"] = true
+		for _, k := range c.eng.compOrder {
+			if strings.HasPrefix(k, "ghost$chansent$") {
+				m.comps[k] = true
+			}
+		}
 	case *ssa.Go:
-		m.all = true
+		// effects of the spawned goroutine are concurrent and not modelled (listed as an assumption)
+	case *ssa.Next:
+		if fr != nil {
+			m.locals[fmt.Sprintf("%d:range:%s", fr.id, i.Iter.Name())] = true
+		}
 	case *ssa.Select:
-		m.all = true
+		for _, s := range i.States {
+			_ = s
+		}
+		m.comps["ghost$chan$recvd"], m.comps["ghost$chan$sent"] = true, true
+		for _, k := range c.eng.compOrder {
+			if strings.HasPrefix(k, "ghost$chansent$") {
+				m.comps[k] = true
+			}
+		}
 	case *ssa.Call:
 		c.callMods(fr, &i.Call, m, depth)
 	case *ssa.Defer:
 		c.callMods(fr, &i.Call, m, depth)
 	case *ssa.UnOp:
 		if i.Op == token.ARROW {
-			m.comps["ghost$chan"] = true
+			m.comps["ghost$chan$recvd"] = true
 		}
 	}
 }
@@ -1013,7 +1084,7 @@ func (c *FnCtx) callMods(fr *Frame, call *ssa.CallCommon, m *modSet, depth int) 
 				m.comps[h], m.comps[v], m.comps[l] = true, true, true
 			}
 		case "close":
-			m.comps["ghost$chan"] = true
+			m.comps["ghost$chan$closed"] = true
 		}
 		return
 	}
@@ -1027,6 +1098,10 @@ func (c *FnCtx) callMods(fr *Frame, call *ssa.CallCommon, m *modSet, depth int) 
 		c.funcMods(callee, m, depth)
 		return
 	}
+	if typeKey(call.Value.Type()) == "context.CancelFunc" {
+		m.comps["ghost$cancelled"] = true
+		return
+	}
 	if call.IsInvoke() {
 		if mm := c.eng.invokeMods(c, call); mm != nil {
 			m.union(mm)
@@ -1035,9 +1110,21 @@ func (c *FnCtx) callMods(fr *Frame, call *ssa.CallCommon, m *modSet, depth int) 
 	} else if cb := c.eng.callbackSpec(call.Value.Type()); cb != nil {
 		m.union(c.eng.patternMods(c, cb.Modifies))
 		m.alloc = true
+		c.cbGhostMods(m)
 		return
 	}
 	m.all = true
+}
+
+// cbGhostMods: the ghost call log is written by every callback invocation.
+func (c *FnCtx) cbGhostMods(m *modSet) {
+	m.comps[c.cbCallsComp()] = true
+	m.comps[c.comp("ghost$cbfn", "(Array Int Int)")] = true
+	for _, k := range c.eng.compOrder {
+		if strings.HasPrefix(k, "ghost$cbres$") {
+			m.comps[k] = true
+		}
+	}
 }
 
 func (c *FnCtx) funcMods(fn *ssa.Function, m *modSet, depth int) {
